@@ -32,7 +32,11 @@ Inductive c12case :=
    (format membership) *)
 | CWrite (stream : list seg) (recs : list (list seg))
 (* util.NewCRC(data).Value() = v *)
-| CCrc (data : list seg) (v : N).
+| CCrc (data : list seg) (v : N)
+(* the harness's reference encoder of the log format (independent of the journal package; the
+   implementation's writer is compared with it in the harness) produced the stream from these
+   records: the MODEL writer must produce the same bytes, with the given flush pattern *)
+| CEnc (fl : list bool) (recs : list (list seg)) (stream : list seg).
 
 Definition obs_eq (m : outcome) (o : obs) : bool :=
   match m, o with
@@ -63,6 +67,8 @@ Definition run_case (c : c12case) : bool :=
   | CCrc data v =>
       let b := segs_bytes data in
       (jcrc b =? v) && (if Nat.ltb (List.length b) 600 then masked_crc_bitwise jcp b =? v else true)
+  | CEnc fl recs stream =>
+      beq (jwrite jcrc jp fl (map segs_bytes recs)) (segs_bytes stream)
   end.
 
 Fixpoint mism_from {A} (f : A -> bool) (i : N) (l : list A) : list N :=
